@@ -73,3 +73,26 @@ Qed.
 Lemma parse_opts_eqd sp l s : snd (parse_opts sp l s) ~~ s.
 Proof. apply parse_options_eqd. Qed.
 
+
+Lemma is_punct_arg_eqd a s : snd (is_punct_arg a s) ~~ s.
+Proof. unfold is_punct_arg. destruct (match a with IEsc e :: r => _ | _ => (a, false) end) as [a1 stop]. destruct stop; [reflexivity|].
+  destruct a1; [reflexivity|]. pose proof (inlines_text_eqd (i :: a1) s) as H. destruct (inlines_text _ s). exact H. Qed.
+Lemma get_close_punct_eqd l s : snd (get_close_punct l s) ~~ s.
+Proof. unfold get_close_punct. destruct (rev l) as [|lastarg revrest]; [reflexivity|].
+  pose proof (is_punct_arg_eqd lastarg s) as H1. destruct (is_punct_arg lastarg s) as [b s1]. cbn [snd] in H1.
+  destruct b; [|exact H1]. pose proof (render_text_eqd lastarg s1) as H2. destruct (render_text lastarg s1) as [p s2]. cbn [snd] in *.
+  eapply eqd_trans; eauto. Qed.
+Lemma args_text_eqd l : forall s, snd (args_text l s) ~~ s.
+Proof. induction l as [|a r IH]; intro s; [reflexivity|]. destruct r as [|b r'].
+  - apply inlines_text_eqd.
+  - change (args_text (a :: b :: r') s) with (let '(x, s1) := inlines_text a s in let '(y, s2) := args_text (b :: r') s1 in (x ++ [32] ++ y, s2)).
+    pose proof (inlines_text_eqd a s) as H1. destruct (inlines_text a s) as [x s1]. cbn [snd] in H1.
+    pose proof (IH s1) as H2. destruct (args_text (b :: r') s1) as [y s2]. cbn [snd] in *. eapply eqd_trans; [exact H2|exact H1]. Qed.
+Lemma check_formats_eqd fs : forall s, check_formats fs s ~~ s.
+Proof. unfold check_formats. induction fs as [|f r IH]; intro s; [reflexivity|]. cbn [fold_left].
+  destruct (valid_format f); [apply IH|]. eapply eqd_trans; [apply IH|apply err_eqd]. Qed.
+Lemma formats_of_eqd a s : snd (formats_of a s) ~~ s.
+Proof. unfold formats_of. pose proof (inlines_text_eqd a s) as H. destruct (inlines_text a s). exact H. Qed.
+(* any observation that does not look at the diagnostics is the same on both sides *)
+Lemma eqd_get {A} (g : st -> A) a b : (forall s, g (nd s) = g s) -> a ~~ b -> g a = g b.
+Proof. intros Hg H. rewrite <- (Hg a), <- (Hg b). unfold eqd in H. rewrite H. reflexivity. Qed.
